@@ -195,6 +195,7 @@ func (f *Func) Invoke(ctx context.Context, arg interface{}) (interface{}, error)
 		delete(bctx.pendingBatchGroups, fs)
 	}
 	bctx.mu.Unlock()
+	verifYield("invoke.joined")
 
 	// Run the batchGroup if we created it. Otherwise, wait for the batchGroup to
 	// finish.
@@ -206,6 +207,7 @@ func (f *Func) Invoke(ctx context.Context, arg interface{}) (interface{}, error)
 		case <-timer.C: // Resolve after a timeout to bound latency.
 		case <-bg.maxSizeCh: // Resolve if we hit max batch size.
 		}
+		verifYield("invoke.triggered")
 
 		// Before we try and resolve, make sure noone will add to the group by
 		// deleting it from the pending groups.
@@ -224,6 +226,7 @@ func (f *Func) Invoke(ctx context.Context, arg interface{}) (interface{}, error)
 			bg.err = ctx.Err()
 		}
 		// Make the result available.
+		verifYield("invoke.beforeDone")
 		close(bg.doneCh)
 
 	} else {
